@@ -574,7 +574,6 @@ func checkCoreFanouts(c *Ctx) {
 	}
 }
 
-
 // checkGeneratedRegexp: the constant generated-path pattern, sampled against reserved paths and decoys (C04, C20).
 func checkGeneratedRegexp(c *Ctx) {
 	p := c.P
